@@ -353,6 +353,25 @@ def roll1(ctx):
                   'at roll-over the old WAL file is not flushed+fsynced (+dirsync) before "%s": its tail would only be flushed by Drop, never fsynced (flush:%s fsync:%s dirsync:%s order:%s)' % (what, d1, d2, d3, order))
 
 
+def offset_restarts(b):
+    """stores to RollingWriter.offset that START the offset afresh: the stored value does not depend on the old offset
+    (`offset = 0`, or `offset = buf.len()` for "0 + what is about to be written")"""
+    from rules_codec import expr_leaves
+    out = []
+    for (p, pl, rv) in b.stores:
+        if mem_loc(pl) != 'RollingWriter.offset' or rv['k'] != 'use':
+            continue
+        if op_const_bits(rv['op']) == 0:
+            out.append(p)
+            continue
+        if op_const_bits(rv['op']) is not None:
+            continue
+        lv = expr_leaves(b, rv['op'])
+        if lv and not any(x[0] == 'place' and mem_loc(x[2]) == 'RollingWriter.offset' for x in lv) and not any(x[0] == 'other' for x in lv):
+            out.append(p)
+    return out
+
+
 @rule('ROLL2', ['C02', 'C06', 'C03'], floor=1, template='pairing')
 def roll2(ctx):
     """Roll-over replaces handle, file number and offset together, before the next byte is written."""
@@ -364,7 +383,7 @@ def roll2(ctx):
         if not fs:
             continue
         fn_s = [p for (p, pl, rv) in b.stores if mem_loc(pl) == 'RollingWriter.file_number']
-        off0 = [p for (p, pl, rv) in b.stores if mem_loc(pl) == 'RollingWriter.offset' and rv['k'] == 'use' and op_const_bits(rv['op']) == 0]
+        off0 = offset_restarts(b)
         exits = [e['point'] for e in b.ok_exits()] + [p for (p, e, cs) in ctx.E.direct_sites(b) if e == 'WRITE']
         for f in fs:
             n += 1
@@ -463,7 +482,7 @@ def sz1(ctx):
     ctx.check(not fc, 'no-file-create', '-', 'File::create* is used nowhere', 'File::create* used at %s (truncates an existing file)' % fc, nontrivial=False)
 
 
-@rule('SZ2', ['C02'], floor=1, template='sibling-agreement')
+@rule('SZ2', ['C02', 'C04', 'C06', 'C07'], floor=1, template='sibling-agreement')
 def sz2(ctx):
     """Every handle stored into RollingWriter.file at roll-over has been sized to FILE_NUM_BYTES."""
     n = 0
@@ -557,13 +576,18 @@ def roll3(ctx):
         ws = [p for (p, e, cs) in ctx.E.direct_sites(b) if e == 'WRITE']
         if not ws:
             continue
-        for c in const_comparisons(ctx, b, 'FILE_NUM_BYTES'):
-            lv = expr_leaves(b, c['x'])
+        from rules_codec import bound_comparisons
+        comps = list(const_comparisons(ctx, b, 'FILE_NUM_BYTES'))
+        seen_pts = {c['point'] for c in comps}
+        # `len > FILE_NUM_BYTES - offset`: the offset moved to the other side, same operator (ROLL5 has its say on the subtraction)
+        comps += [c for c in bound_comparisons(ctx, b, 'FILE_NUM_BYTES') if c['point'] not in seen_pts]
+        for c in comps:
+            lv = expr_leaves(b, c['x']) + (expr_leaves(b, c['bound']) if c.get('bound') is not None else [])
             if not any(x[0] == 'place' and mem_loc(x[2]) == 'RollingWriter.offset' for x in lv):
                 continue
             for (bj, te, fe) in switch_on_result(b, c):
                 exceed = te if c['op'] in ('Gt', 'Ge') else fe
-                resets = [p for (p, pl, rv) in b.stores if mem_loc(pl) == 'RollingWriter.offset' and rv['k'] == 'use' and op_const_bits(rv['op']) == 0]
+                resets = offset_restarts(b)
                 # also a call to a helper that resets the offset
                 mw = ctx.E.maywrite()
                 for cs in b.calls:
@@ -575,3 +599,52 @@ def roll3(ctx):
                           'a write that does not fit the current WAL file can reach the file without rolling over (inverted or missing test): files would grow beyond their fixed size and the reader, which reads FILE_NUM_BYTES per file, would never see the excess')
     if n == 0:
         ctx.missing('file-full-test', 'no comparison of the write offset with FILE_NUM_BYTES in the block writer')
+
+
+@rule('ROLL5', ['C10'], floor=1, template='no-overflowing-arithmetic')
+def roll5(ctx):
+    """The write offset is not subtracted from anything without a test: `RollingReader::into_writer` starts the writer at
+    `block_id * BLOCK_NUM_BYTES`, and the block count of the file where replay ended is whatever the directory
+    contains (a WAL file longer than FILE_NUM_BYTES is one of the contents open must survive), so
+    `FILE_NUM_BYTES - offset` -- equivalent to the addition form for every state the writer itself produces --
+    underflows there: open (through the recovery-time GC) or the first write panics in checked builds, and in release
+    builds the writer never rolls again. `offset % BLOCK_NUM_BYTES` is bounded and is not concerned."""
+    n = 0
+    bad = []
+    for b in ctx.f.bodies.values():
+        if b.generic_dup() or b.is_test or 'rolling::directory::RollingWriter' not in b.path:
+            continue
+        n += 1
+        for bi, blk in enumerate(b.blocks):
+            if not b.live[bi]:
+                continue
+            for si, st in enumerate(blk['stmts']):
+                if st['k'] != 'assign' or st['rv']['k'] != 'binop' or not st['rv']['op'].startswith('Sub'):
+                    continue
+                af = b.affine(st['rv']['b'])
+                if af is None or not any(k_ == ('mem', 'RollingWriter.offset') and cf > 0 for (k_, cf) in af[0].items()):
+                    continue
+                p = b.pstart[bi] + si
+                # a dominating comparison that reads the offset is taken as the guard
+                guarded = False
+                for bj, blk2 in enumerate(b.blocks):
+                    if not b.live[bj] or blk2['term']['k'] != 'switch':
+                        continue
+                    c = b.switch_cond(bj)
+                    if not c or c['kind'] != 'bool':
+                        continue
+                    for o in c['origin']:
+                        if o[0] == 'rv' and o[2]['k'] == 'binop' and o[2]['op'] in ('Lt', 'Le', 'Gt', 'Ge'):
+                            for side in (o[2]['a'], o[2]['b']):
+                                a2 = b.affine(side)
+                                if a2 is not None and ('mem', 'RollingWriter.offset') in a2[0]:
+                                    e = b.bool_edges(bj)
+                                    if e and (b.edge_dominates(e[0], p) or b.edge_dominates(e[1], p)):
+                                        guarded = True
+                if not guarded:
+                    bad.append('%s (%s)' % (b.loc(p), b.path))
+    if n == 0:
+        ctx.missing('writer', 'no RollingWriter body found')
+        return
+    ctx.check(not bad, 'no-unguarded-offset-subtraction', 'src/rolling/directory.rs', 'the write offset is never the subtrahend of an unguarded subtraction in the %d bodies of the rolling writer' % n,
+              'the write offset is subtracted from a bound without a test (%s): the writer is started at block_id * BLOCK_NUM_BYTES of whatever file replay ended in, an over-long WAL file makes the subtraction underflow -- open or the first write panics' % sorted(set(bad)))
